@@ -74,3 +74,8 @@ def conc(x):
     """force a concrete value (forks over the feasible values in symbolic mode)"""
     from .symint import concretize
     return concretize(x)
+
+
+def conc_bool(x):
+    """truth value (forks in symbolic mode)"""
+    return bool(x)
